@@ -11,7 +11,7 @@ Extraction "model.ml"
   gk_skip
   val_eqb vdepth
   has_type env_ok zero_of fresh apply_init lookup_sd
-  denote encode_spec
+  denote encode_spec absorb_top absorb need skipped_depth
   append_struct encoded_size encode_object
   decode_object decode_struct
   maxDepthLimit params_ok tables_ok legacy_ok access_ok.
